@@ -78,8 +78,20 @@ def content(spec, coord):
     return None
 
 
-def arg_text(arg):
-    p = f"{arg['sheet']}!" if arg.get('sheet') else ''
+TITLE_SETS = [['S', 'T', 'U'], ['S', 'T', 'U'], ['Main', '2024', '1'], ['0', '10', '2'], ['Data', 'My Sheet', "it's"]]
+
+
+def title_of(spec, key):
+    return TITLE_SETS[spec.get('titles', 0) % len(TITLE_SETS)]['STU'.index(key)]
+
+
+def prefix_of(spec, key):
+    t = title_of(spec, key)
+    return (t if t.isidentifier() else "'" + t.replace("'", "''") + "'") + '!'
+
+
+def arg_text(arg, spec=None):
+    p = (prefix_of(spec, arg['sheet']) if spec is not None else f"{arg['sheet']}!") if arg.get('sheet') else ''
     if arg['t'] == 'num':
         return str(arg['v'])
     if arg['t'] == 'cmp':
@@ -154,14 +166,14 @@ def stats(spec, args):
 
 
 def build(spec):
-    sheets = [{'title': 'S', 'cells': {}}]
+    sheets = [{'title': title_of(spec, 'S'), 'cells': {}}]
     grids = [('S', spec['grid'])]
     if spec.get('grid2'):
-        sheets.append({'title': 'T', 'cells': {}})
+        sheets.append({'title': title_of(spec, 'T'), 'cells': {}})
         grids.append(('T', spec['grid2']))
     if spec.get('grid3'):
         # a sheet that holds data only (no formula is placed there): areas over it may reach beyond its used range
-        sheets.append({'title': 'U', 'cells': {}})
+        sheets.append({'title': title_of(spec, 'U'), 'cells': {}})
         grids.append(('U', spec['grid3']))
     for (title, grid), sh in zip(grids, sheets):
         for r, row in enumerate(grid):
@@ -202,7 +214,7 @@ def build(spec):
             exp = fold(spec, fn, args if home == 'S' else [{**a, 'sheet': 'T'} if a['t'] != 'num' else a for a in args])
         except Skip:
             continue
-        call = f"{fn}({','.join(arg_text(a) for a in args)})"
+        call = f"{fn}({','.join(arg_text(a, spec) for a in args)})"
         nt, ks = stats(spec, args)
         tags = [f'fn:{fn}', f'nargs:{len(args)}'] + sorted({'arg:' + a['t'] + (':other-sheet' if a.get('sheet') else '') for a in args}) + \
                sorted({'content:' + k for k in ks})
@@ -212,20 +224,22 @@ def build(spec):
         else:
             qs.append(Q(f'={call}', exp, fn, nt, tags))
         if fs.get('split_partner') and fn in ('SUM', 'COUNT') and len(args) >= 2:
-            parts = '+'.join(f"{fn}({arg_text(a)})" for a in args)
+            parts = '+'.join(f"{fn}({arg_text(a, spec)})" for a in args)
             qs.append(Q(f'={parts}', exp, f'{fn}:sum-of-parts', nt, tags + ['sum-of-parts']))
         for q_ in qs[n0:]:
             on.append(home)
             if home == 'T':
                 q_.tags.append('formula-on-second-sheet')
-    ov = [(o['sheet'], COLS[o['c']], str(o['r'] + 1), o['v']) for o in spec.get('overrides') or []]
+    ov = [(title_of(spec, o['sheet']), COLS[o['c']], str(o['r'] + 1), o['v']) for o in spec.get('overrides') or []]
+    on = [title_of(spec, h) for h in on]
     if ov:
         for q_ in qs:
             q_.tags.append('overrides')
             if any(kind(grid_of(spec, o['sheet'])[o['r']][o['c']] if o['r'] < len(grid_of(spec, o['sheet'])) and o['c'] < len(grid_of(spec, o['sheet'])[0]) else None)
                    == 'blank' for o in spec['overrides']):
                 q_.tags.append('override-of-a-blank-cell')
-    return {'sheets': sheets, 'queries': qs, 'on': on, 'first_col': 12, 'ncols': 64, **({'overrides': ov} if ov else {})}  # one row: whole-column areas must not see the formula block
+    return {'sheets': sheets, 'queries': qs, 'on': on, 'first_col': 12, 'ncols': 64, **({'overrides': ov} if ov else {}),
+            'mode': 'entry' if spec.get('entry_mode') and not ov else 'whole'}  # one row: whole-column areas must not see the formula block
 
 
 def run_case(spec):
@@ -329,7 +343,8 @@ def strategy():
                 else:
                     c, r = draw(st.integers(0, len(g[0]) - 1 + (2 if sh == 'U' else 0))), draw(st.integers(0, len(g) - 1 + (2 if sh == 'U' else 0)))
                 overrides.append({'sheet': sh, 'c': c, 'r': r, 'v': draw(st.one_of(num, num, st.sampled_from(WORDS), st.none(), st.booleans()) if flavour != 'logic' else boolnum)})
-        return {'grid': grid, 'grid2': grid2, 'grid3': grid3, 'formulas': formulas, 'subtotals': draw(st.integers(0, 2)) == 0, 'overrides': overrides}
+        return {'grid': grid, 'grid2': grid2, 'grid3': grid3, 'formulas': formulas, 'subtotals': draw(st.integers(0, 2)) == 0, 'overrides': overrides,
+                'titles': draw(st.integers(0, len(TITLE_SETS) - 1)), 'entry_mode': draw(st.integers(0, 3)) == 0}
     return spec()
 
 
